@@ -74,6 +74,17 @@ def nonzero_outside(path, ranges):
             left = b - a
             off = a
             while left > 0:
+                if left > (64 << 20):
+                    # very large gaps (multi-GiB sparse files): hop over what the kernel itself reports as a hole; holes read as
+                    # zeros by definition, so nothing non-zero can be skipped unless SEEK_DATA is broken (a listed assumption)
+                    try:
+                        nd = os.lseek(fh.fileno(), off, os.SEEK_DATA)
+                    except OSError:
+                        nd = b
+                    nd = min(nd, b)
+                    if nd > off:
+                        left -= nd - off; off = nd; fh.seek(off)
+                        continue
                 chunk = fh.read(min(left, 1 << 20))
                 if not chunk:
                     break
